@@ -1,6 +1,6 @@
 SPECIFICATION Spec
 CONSTANTS
-  P = 3
+  P = 2
   B = 2
   KK = 3
   N1 = 1
@@ -8,8 +8,8 @@ CONSTANTS
   N3 = 1
   N4 = 0
   NParts <- NPartsDef
-  Clear = TRUE
-  Split = FALSE
+  Clear = FALSE
+  Split = TRUE
   SkelBarrierOnWorld = FALSE
   RootIsLowest = TRUE
   StatusEverywhere = TRUE
